@@ -221,8 +221,9 @@ type NamedOwnerModule struct {
 
 // World is a complete deployment.
 type World struct {
-	Opt Options
-	J   *Journal
+	Opt  Options
+	J    *Journal
+	Keys *KeyAlloc
 
 	MfgStore, RVStore, OwnerStore *Store
 
@@ -263,7 +264,7 @@ func New(opt Options) *World {
 	if opt.RvInfo == nil {
 		opt.RvInfo = [][]protocol.RvInstruction{}
 	}
-	w := &World{Opt: opt, J: &Journal{NoLock: opt.NoJournalLock}}
+	w := &World{Opt: opt, J: &Journal{NoLock: opt.NoJournalLock}, Keys: NewKeyAlloc()}
 	if opt.Separate {
 		w.MfgStore = OpenStore("mfg", w.J)
 		w.RVStore = OpenStore("rv", w.J)
@@ -272,8 +273,8 @@ func New(opt Options) *World {
 		s := OpenStore("aio", w.J)
 		w.MfgStore, w.RVStore, w.OwnerStore = s, s, s
 	}
-	w.Mfg = NewParty("mfg", opt.Kind)
-	w.Owner = NewParty("owner1", opt.Kind)
+	w.Mfg = w.Keys.NewParty("mfg", opt.Kind)
+	w.Owner = w.Keys.NewParty("owner1", opt.Kind)
 	w.CA = deviceCA()
 	w.MfgKeys = NewKeyStore(w.Mfg)
 	w.OwnerKeys = NewKeyStore(w.Owner)
@@ -398,7 +399,7 @@ func (w *World) NewDevice(kind KeyKind) *Device {
 	_, _ = rand.Read(secret)
 	serial := make([]byte, 8)
 	_, _ = rand.Read(serial)
-	return &Device{Kind: kind, Enc: w.Opt.Enc, Key: kind.NewKey(), Secret: secret, Serial: hex.EncodeToString(serial)}
+	return &Device{Kind: kind, Enc: w.Opt.Enc, Key: w.Keys.NewKey(kind), Secret: secret, Serial: hex.EncodeToString(serial)}
 }
 
 // Hmacs returns fresh HMAC instances over the device secret.
